@@ -364,7 +364,8 @@ def run_check(prop_id, tier, verif_seed, budget_s=None, workers=None, max_runs=N
             if any(finding_matches(k, prop_id, vv[0]) for k in known_open) and not any(
                     finding_matches(k, prop_id, v) for k in known_open):
                 small, vv = trace, [v]
-            path = write_replay(prop_id, small, vv[0], original=trace)
+            path = write_replay(prop_id, small, vv[0], original=trace,
+                                name=f"{prop_id}-{verif_seed}-{r['i']}-{v['kind']}-{len(violations_reported)}.json")
             ok, txt = replay_in_fresh_process(prop_id, path, v["kind"])
             if not ok:
                 harness_errors.append(f"violation {v['kind']} of run {r['i']} did not reproduce from {path} (flaky): {txt[-600:]}")
